@@ -2779,6 +2779,8 @@ impl<E: Effect> Executor<E> {
             // index only types the handle, and `Self_` reads it from a frame a tail call may replace).
             (Value::Process(a, _), Value::Process(b, _)) => a == b,
             (Value::Reference(a), Value::Reference(b)) => a == b,
+            // A resource handle is the same value exactly when it names the same resource.
+            (Value::Resource(a, _), Value::Resource(b, _)) => a == b,
             _ => false,
         }
     }
